@@ -61,7 +61,7 @@ def main(argv=None):
         import props.c13 as p13
         for sh in p13.shapes(chk.tier):
             tasks.append({'module': 'props.c03', 'fn': 'shared_c13_task', 'name': f'_begin_betting/n{sh.n}h{sh.H}', 'shape': sh.as_dict(),
-                          'timeout_ms': 120000 if chk.tier == 'thorough' else 30000, 'weight': sh.n * sh.H})
+                          'timeout_ms': 300000 if chk.tier == 'thorough' else 30000, 'weight': sh.n * sh.H})
         tasks.append({'module': 'pyvc.native', 'fn': 'guard_task', 'name': 'native-guard', 'table_module': 'contracts.c03',
                       'table_name': 'GUARD_TABLE', 'prop': 'C03', 'hands': 400 if chk.tier == 'quick' else 4000, 'seed': chk.seed,
                       'budget_s': 20 if chk.tier == 'quick' else 200, 'weight': 100})
